@@ -1663,6 +1663,28 @@ def check_pick_next_handlers(ctx, rep, rid, handler, peek):
         rep.ob(rid, pn, '%s:result-is-queued' % handler, pushed, 'the event returned by %s is pushed into the queue' % handler)
 
 
+def check_before_helper(ctx, rep, rid):
+    """queue_event::before(base candidate, current best, delay) answers "take the base event" only when there IS a base event: the
+    caller unwraps the winner, so a `true` for an absent candidate is a panic in EventQueue::peek"""
+    prog, an = ctx.prog, ctx.an
+    fn = prog.fn_opt(SIM, None, 'before')
+    if fn is None:
+        rep.fail_closed(rid, 'queue_event::before')
+        return
+    fa = an.get(fn)
+    pf = an.paths(fn, history=True)
+    n = 0
+    for (b, k, v) in ret_defs(fa):
+        vals = [v] if v[0] != 'phi' else list(v[1])
+        if any(num(x) == 0 for x in vals) and not any(num(x) != 0 for x in vals):
+            continue
+        n += 1
+        sts = pf.at(b, k) if k is not None else pf.at_entry(b)
+        ok, w = all_paths(sts, lambda S: any(f[0] == 'variant' and f[2] == 'Some' and root_of(f[1]) == ('param', 1) for f in S))
+        rep.ob(rid, fn, 'before-true-only-for-a-present-candidate', ok and bool(sts), 'returns %s' % shape(v)[:60] + ('' if ok else '; witness: ' + show_facts(w)))
+    rep.count_floor(rid, 'non-false results of before()', n, 1)
+
+
 def check_C19(ctx, rep):
     prog, an = ctx.prog, ctx.an
     rep.rule('C19.R1', 'ambient effects reachable from sim_advanced are exactly the sanctioned ones: rand::thread_rng in SimState::new only on the '
@@ -1910,6 +1932,7 @@ def check_C19(ctx, rep):
     rep.rule('C19.R6', 'totality of the queue hand-over: SimQueue::pop_blocking removes the event peek_blocking handed out (the `.unwrap()` on its '
              'result in sim_network_stack relies on it)')
     check_pop_blocking(ctx, rep, 'C19.R6')
+    check_before_helper(ctx, rep, 'C19.R6')
     check_side_plumbing(ctx, rep, 'C19.R5')
     check_pick_next_none(ctx, rep, 'C19.R4')
     rep.rule('C19.R7', 'a copy of the simulator\'s inputs and state is a faithful copy: every Clone impl of the simulator crate (SimQueue and its '
